@@ -16,22 +16,34 @@ Mods == <<"a", "g", "d">>                       \* module leaf names by level
 LevelOf(m) == CASE m = "a" -> 1 [] m = "g" -> 2 [] m = "d" -> 3
 EmitKinds == {"class", "function", "argparse", "pydantic", "json_schema", "sqlalchemy", "sqlalchemy_table", "sqlalchemy_submodule"}
 ModSet(levels) == {Mods[k] : k \in 1..levels}
-Opts == {o \in [levels : 1..3, emit : EmitKinds, recursive : BOOLEAN, black : SUBSET {"a", "g"}, white : SUBSET {"a", "g"},
-               dry : BOOLEAN, out_exists : BOOLEAN] :
-           /\ o.black \subseteq ModSet(o.levels) /\ o.white \subseteq ModSet(o.levels)
-           /\ (o.black = {} \/ o.white = {})                  \* one of the two filters at a time
-           /\ Cardinality(o.black) <= 1 /\ Cardinality(o.white) <= 1}
+\* expose = "top": `-m pkg` (filters name modules "a" / "g");  expose = "sub": `-m pkg.sub` (a dotted module: levels >= 2), where
+\* the filters name the exposed package itself ("self") -- the blacklist wins over the whitelist
+Opts == {o \in [levels : 1..3, emit : EmitKinds, recursive : BOOLEAN, black : SUBSET {"a", "g", "self"}, white : SUBSET {"a", "g", "self"},
+               dry : BOOLEAN, out_exists : BOOLEAN, expose : {"top", "sub"}] :
+           /\ Cardinality(o.black) <= 1 /\ Cardinality(o.white) <= 1
+           /\ (o.expose = "top" => /\ o.black \subseteq ModSet(o.levels) /\ o.white \subseteq ModSet(o.levels)
+                                    /\ (o.black = {} \/ o.white = {}))                  \* one of the two filters at a time
+           /\ (o.expose = "sub" => /\ o.levels >= 2 /\ o.black \subseteq {"self"} /\ o.white \subseteq {"self"}
+                                    /\ o.emit \in {"class", "function", "sqlalchemy"})}
 
-Walked(o) == {m \in ModSet(o.levels) : o.recursive \/ LevelOf(m) = 1}
-Included(o) == {m \in Walked(o) : m \notin o.black /\ (o.white = {} \/ m \in o.white)}
-Excluded(o) == ModSet(o.levels) \ Included(o)
+Walked(o) == IF o.expose = "top" THEN {m \in ModSet(o.levels) : o.recursive \/ LevelOf(m) = 1}
+             ELSE {m \in ModSet(o.levels) \ {"a"} : o.recursive \/ LevelOf(m) = 2}
+\* for a dotted exposed package the filters act on the package: its own module g is excluded when the package is blacklisted
+\* (the blacklist wins); the sub-package's module d is excluded when a whitelist is given that does not name it
+Included(o) == IF o.expose = "top" THEN {m \in Walked(o) : m \notin o.black /\ (o.white = {} \/ m \in o.white)}
+               ELSE {m \in Walked(o) : IF m = "g" THEN "self" \notin o.black ELSE o.white = {}}
+\* the modules whose silence is demanded (for a blacklisted dotted package the statement does not say whether its sub-packages
+\* go too: d is judged only under a whitelist)
+Excluded(o) == IF o.expose = "top" THEN ModSet(o.levels) \ Included(o)
+               ELSE (IF "self" \in o.black THEN {"g"} ELSE {}) \cup (IF o.white # {} /\ o.levels = 3 THEN {"d"} ELSE {})
 
 Src(o) == {<<"src", m>> : m \in ModSet(o.levels)}
+Unjudged(o) == IF o.expose = "sub" THEN {<<"out", m>> : m \in ModSet(o.levels)} ELSE {}
 Gen(o) == {<<"out", m>> : m \in Included(o)} \cup {<<"out", "__init__">>}
 
 \* ---- named deviations ---------------------------------------------------------------------------------
 DryWrites(o) == "dryrun_sqlalchemy_submodule_writes" \in Enabled /\ o.dry /\ o.emit = "sqlalchemy_submodule" /\ o.out_exists
-FilterIgnored(o) == "filters_ignored_for_top_level_package" \in Enabled /\ (o.black # {} \/ o.white # {})
+FilterIgnored(o) == "filters_ignored_for_top_level_package" \in Enabled /\ o.expose = "top" /\ (o.black # {} \/ o.white # {})
 Fired(o) == (IF DryWrites(o) THEN {"dryrun_sqlalchemy_submodule_writes"} ELSE {})
             \cup (IF FilterIgnored(o) /\ ~o.dry THEN {"filters_ignored_for_top_level_package"} ELSE {})
 
@@ -60,7 +72,7 @@ AllFourOrDeviation == pc = "done" => (AllFour \/ Fired(o) # {})
 RECURSIVE SetToSeq(_)
 SetToSeq(S) == IF S = {} THEN <<>> ELSE LET x == CHOOSE x \in S : TRUE IN <<x>> \o SetToSeq(S \ {x})
 Dump == pc = "done" => PrintT(ToJson([o |-> [levels |-> o.levels, emit |-> o.emit, recursive |-> o.recursive, dry |-> o.dry,
-                                             out_exists |-> o.out_exists, black |-> SetToSeq(o.black), white |-> SetToSeq(o.white)],
+                                             expose |-> o.expose, out_exists |-> o.out_exists, black |-> SetToSeq(o.black), white |-> SetToSeq(o.white)],
                                       included |-> SetToSeq(Included(o)), excluded |-> SetToSeq(Excluded(o)),
                                       devs |-> SetToSeq(Fired(o))]))
 =====================================================================================
